@@ -3,13 +3,20 @@
     Thm/IntegratorsStab.v.  Every coefficient is the one of Gen/Tableaux.v, which
     is re-translated from dinosaur/time_integration.py on every run.
 
-    Trusted mathematics (cited, not formalised): "rooted-tree order conditions up
-    to p  =>  local error O(h^(p+1)) for every smooth F" (Butcher; Kennedy and
-    Carpenter for additive schemes).  Formalised: the conditions themselves on the
-    generated coefficients, the Taylor coefficients of the linear multiplier, the
-    reductions, A-stability for all z, the length validations. *)
+    Formalised: the order conditions on the generated coefficients, the Taylor
+    coefficients of the linear multiplier, the reductions, A-stability for all z, the
+    length validations, and (section NonlinearOrder) the ORDER ITSELF for nonlinear F:
+    the step functions of the model, run at the carrier "truncated power series in h",
+    reproduce the Taylor series of the exact flow of the scalar problem
+    u' = F(u) + g u with symbolic u0, g, F^(j)(u0)/j! over every field of characteristic
+    0, up to the design order and not beyond.
+    Still cited, not formalised (Butcher; Kennedy and Carpenter): that for SYSTEMS
+    (vector-valued elementary differentials) the same tree conditions suffice; the
+    scalar problem separates all conditions of the orders claimed here (see the
+    header of Thm/IntegratorsOrder.v). *)
 From Dino Require Import Base.Ops Base.Sums Base.Inst Gen.Tableaux Model.Integrators
-  Thm.Integrators Thm.IntegratorsStab Thm.IntegratorsArk Thm.IntegratorsSil3.
+  Thm.Integrators Thm.IntegratorsStab Thm.IntegratorsArk Thm.IntegratorsSil3
+  Model.SeriesH Thm.IntegratorsOrder.
 From Coq Require Import Reals Qreals Qabs Lra.
 
 (** the translator understood every construct it had to read (fail-closed switch) *)
@@ -203,6 +210,130 @@ Section ImexReduces.
   Qed.
 End ImexReduces.
 
+(** ** Order for NONLINEAR F by formal power series in the step size h.
+    K: any field with 1 + .. + 1 <> 0 (characteristic 0; [ofZ] is the canonical map
+    Z -> K).  u0, g, c_j = F^(j)(u0)/j! (j = 0..4): arbitrary elements of K.
+    [run_*]: the step functions [euler_step], [cn_rk2_step], [ls_step], [imex_step],
+    [leapfrog_step] of Model/Integrators.v at the carrier of power series truncated
+    after h^4, dt = h, F = Taylor's formula, G = g., G_inv = geometric series, on the
+    coefficients of Gen/Tableaux.v.  [exact_flow]: the Taylor series of the solution.
+    [tcoef s k]: coefficient of h^k.  Negative parts: witnesses u0 = g = 1,
+    (c0..c4) = (1, 2, 1, 1, 1). *)
+Local Open Scope F_scope.
+Section NonlinearOrder.
+  Context {K : Type} {oK : Ops K} {Kc : FieldC oK}.
+  Hypothesis char0 : forall p : positive, @ofZ K oK (Zpos p) <> 0.
+  Variables u0 g c0 c1 c2 c3 c4 : K.
+  Notation cs := [c0; c1; c2; c3; c4].
+  Notation W := [1; 1 + 1; 1; 1; 1].
+  Notation EX := (exact_flow (@ofQ K oK) NN).
+
+  (** the comparison series starts at u0 and solves dE/dh = F(E) + g E modulo h^4 *)
+  Theorem C06_series_exact_flow_is_taylor :
+    let E := EX cs u0 g in
+    tcoef E 0 = u0 /\
+    forall k, (k <= 3)%nat ->
+      tcoef (tderiv (@ofQ K oK) E) k = tcoef (tadd (Fser NN cs u0 E) (Gser NN g E)) k.
+  Proof. exact (exact_flow_solves_ode char0 u0 g c0 c1 c2 c3 c4). Qed.
+
+  (** the geometric series is the inverse of 1 - eta g in the truncated ring *)
+  Theorem C06_series_ginv_is_inverse (x0 x1 x2 x3 x4 e1 e2 e3 e4 : K) :
+    let x := [x0; x1; x2; x3; x4] in let eta := [0; e1; e2; e3; e4] in
+    let y := Ginvser NN g x eta in
+    forall k, (k <= 4)%nat -> tcoef (tsub y (tmul NN eta (Gser NN g y))) k = tcoef x k.
+  Proof. exact (Ginvser_solves char0 x0 x1 x2 x3 x4 e1 e2 e3 e4 g). Qed.
+
+  Theorem C06_nonlinear_order_euler :
+    (forall k, (k <= 1)%nat -> tcoef (run_euler NN cs u0 g) k = tcoef (EX cs u0 g) k) /\
+    tcoef (run_euler NN W 1 1) 2 <> tcoef (EX W 1 1) 2.
+  Proof. split; [exact (euler_order1 char0 u0 g c0 c1 c2 c3 c4)|exact (euler_not_order2 char0 u0 g c0 c1 c2 c3 c4)]. Qed.
+
+  Theorem C06_nonlinear_order_cn_rk2 :
+    (forall k, (k <= 2)%nat -> tcoef (run_rk2 (@ofQ K oK) NN cs u0 g) k = tcoef (EX cs u0 g) k) /\
+    tcoef (run_rk2 (@ofQ K oK) NN W 1 1) 3 <> tcoef (EX W 1 1) 3.
+  Proof. split; [exact (rk2_order2 char0 u0 g c0 c1 c2 c3 c4)|exact (rk2_not_order3 char0 u0 g c0 c1 c2 c3 c4)]. Qed.
+
+  (** Williamson RK3 + CN: order 2 for every g, not 3; with g = 0 order 3, not 4 *)
+  Theorem C06_nonlinear_order_cn_rk3 :
+    let RK3 := fun cs u0 g => run_ls (@ofQ K oK) NN cs u0 g rk3_alphas rk3_betas rk3_gammas in
+    (forall k, (k <= 2)%nat -> tcoef (RK3 cs u0 g) k = tcoef (EX cs u0 g) k) /\
+    tcoef (RK3 W 1 1) 3 <> tcoef (EX W 1 1) 3 /\
+    (forall k, (k <= 3)%nat -> tcoef (RK3 cs u0 0) k = tcoef (EX cs u0 0) k) /\
+    tcoef (RK3 W 1 0) 4 <> tcoef (EX W 1 0) 4.
+  Proof.
+    cbv zeta. repeat split.
+    - exact (rk3_order2 char0 u0 g c0 c1 c2 c3 c4).
+    - exact (rk3_not_order3_general char0 u0 g c0 c1 c2 c3 c4).
+    - exact (rk3_order3_G0 char0 u0 g c0 c1 c2 c3 c4).
+    - exact (rk3_not_order4_G0 char0 u0 g c0 c1 c2 c3 c4).
+  Qed.
+
+  (** Carpenter-Kennedy RK4 + CN, 13-digit decimals ("to rounding" made explicit as in
+      C06_order_cn_rk4): the h^k coefficient of the step is the exact one plus the value
+      at (u0, g, c0..c4) of a defect polynomial all of whose coefficients are <= 1e-13
+      in absolute value - for k <= 2 and every g, for k <= 4 when g = 0; the h^3 defect
+      for general g has a coefficient > 1e-5, and the h^3 coefficients differ at W *)
+  Theorem C06_nonlinear_order_cn_rk4 :
+    let RK4 := fun cs u0 g => run_ls (@ofQ K oK) NN cs u0 g rk4_alphas rk4_betas rk4_gammas in
+    let rho := rho7 u0 g c0 c1 c2 c3 c4 in
+    near_upto eps13 2 (rk4P csV p0 p1) (XP csV p0 p1) = true /\
+    near_upto (1 # 100000) 3 (rk4P csV p0 p1) (XP csV p0 p1) = false /\
+    near_upto eps13 4 (rk4P csV p0 []) (XP csV p0 []) = true /\
+    (forall k, tcoef (RK4 cs u0 g) k =
+               tcoef (EX cs u0 g) k + pev rho (defect (rk4P csV p0 p1) (XP csV p0 p1) k)) /\
+    (forall k, tcoef (RK4 cs u0 0) k =
+               tcoef (EX cs u0 0) k + pev rho (defect (rk4P csV p0 []) (XP csV p0 []) k)) /\
+    tcoef (RK4 W 1 1) 3 <> tcoef (EX W 1 1) 3.
+  Proof.
+    cbv zeta. pose proof rk4_defects_general as H. cbv zeta in H.
+    apply andb_prop in H. destruct H as [H1 H2]. apply Bool.negb_true_iff in H2.
+    split; [|split; [|split; [|split; [|split]]]].
+    - exact H1.
+    - exact H2.
+    - exact rk4_defects_G0.
+    - exact (rk4_order2_near char0 u0 g c0 c1 c2 c3 c4).
+    - exact (rk4_order4_G0_near char0 u0 g c0 c1 c2 c3 c4).
+    - exact (rk4_not_order3_general char0 u0 g c0 c1 c2 c3 c4).
+  Qed.
+
+  (** SIL3 through the zero-skipping interpreter: order 2 for every g, not 3; g = 0:
+      order 2 only for nonlinear F, order 3 for linear F (c2 = c3 = c4 = 0), not 4 *)
+  Theorem C06_nonlinear_order_sil3 :
+    let SIL3 := fun cs u0 g => run_imex (@ofQ K oK) NN cs u0 g sil3_a_ex sil3_a_im sil3_b_ex sil3_b_im in
+    (exists s, SIL3 cs u0 g = Some s /\ forall k, (k <= 2)%nat -> tcoef s k = tcoef (EX cs u0 g) k) /\
+    (exists s, SIL3 W 1 1 = Some s /\ tcoef s 3 <> tcoef (EX W 1 1) 3) /\
+    (exists s, SIL3 W 1 0 = Some s /\ tcoef s 3 <> tcoef (EX W 1 0) 3) /\
+    (exists s, SIL3 [c0; c1; 0; 0; 0] u0 0 = Some s /\
+               forall k, (k <= 3)%nat -> tcoef s k = tcoef (EX [c0; c1; 0; 0; 0] u0 0) k) /\
+    (exists s, SIL3 [1; 1 + 1; 0; 0; 0] 1 0 = Some s /\ tcoef s 4 <> tcoef (EX [1; 1 + 1; 0; 0; 0] 1 0) 4).
+  Proof.
+    cbv zeta. split; [|split; [|split; [|split]]].
+    - exact (sil3_order2 char0 u0 g c0 c1 c2 c3 c4).
+    - exact (sil3_not_order3_general char0 u0 g c0 c1 c2 c3 c4).
+    - exact (sil3_G0_nonlinear_not_order3 char0 u0 g c0 c1 c2 c3 c4).
+    - exact (sil3_G0_linear_order3 char0 u0 g c0 c1 c2 c3 c4).
+    - exact (sil3_G0_linear_not_order4 char0 u0 g c0 c1 c2 c3 c4).
+  Qed.
+
+  (** semi-implicit leapfrog from the exact snapshots u(-h), u(0): second-order
+      consistent for the default alpha read from the source, not third; alpha = 1 only first *)
+  Theorem C06_nonlinear_order_leapfrog :
+    let LF := fun al cs u0 g => run_leapfrog (@ofQ K oK) NN cs u0 g al in
+    (forall k, (k <= 2)%nat -> tcoef (LF leapfrog_alpha_default cs u0 g) k = tcoef (EX cs u0 g) k) /\
+    tcoef (LF leapfrog_alpha_default W 1 1) 3 <> tcoef (EX W 1 1) 3 /\
+    (forall k, (k <= 1)%nat -> tcoef (LF 1%Q cs u0 g) k = tcoef (EX cs u0 g) k) /\
+    tcoef (LF 1%Q W 1 1) 2 <> tcoef (EX W 1 1) 2.
+  Proof.
+    cbv zeta. pose proof (leapfrog_alpha1_order1_only char0 u0 g c0 c1 c2 c3 c4) as [H3 H4].
+    repeat split.
+    - exact (leapfrog_order2 char0 u0 g c0 c1 c2 c3 c4).
+    - exact (leapfrog_not_order3 char0 u0 g c0 c1 c2 c3 c4).
+    - exact H3.
+    - exact H4.
+  Qed.
+End NonlinearOrder.
+Local Close Scope F_scope.
+
 (** ** A-stability over the reals: u' = z u treated implicitly (F = 0, G = z.,
     G_inv(., eta) = (1 - eta z)^-1 .), complex numbers as pairs, |.|^2 = nsq.
     For every step size dt >= 0 and every z with Re z <= 0. *)
@@ -259,6 +390,31 @@ Theorem C06_A_stable_sil3 (z u : Cplx) (dt : R) :
               (RLL sil3_a_ex) (RLL sil3_a_im) (RL sil3_b_ex) (RL sil3_b_im) u = Some y /\
             nsq y <= nsq u.
 Proof. exact (A_stable_sil3 z u dt). Qed.
+
+(** the hypothesis of section NonlinearOrder holds over the reals (non-vacuity), and
+    the real instance of the order statements for the schemes with G = 0 *)
+Lemma ofZ_R_pos (p : positive) : 0 < @ofZ R ROps (Zpos p).
+Proof.
+  induction p as [|p IH] using Pos.peano_ind.
+  - change (0 < 1). lra.
+  - rewrite Pos2Z.inj_succ. unfold Z.succ. rewrite (@ofZ_add R ROps RFieldC).
+    change (0 < @ofZ R ROps (Zpos p) + 1). lra.
+Qed.
+Example C06_nonlinear_hyps_satisfiable : forall p : positive, @ofZ R ROps (Zpos p) <> 0.
+Proof. intros p. pose proof (ofZ_R_pos p). lra. Qed.
+
+Theorem C06_nonlinear_order_reals (u0 c0 c1 c2 c3 c4 : R) :
+  let EX := exact_flow (@ofQ R ROps) NN in
+  (forall k, (k <= 3)%nat ->
+     tcoef (run_ls (@ofQ R ROps) NN [c0; c1; c2; c3; c4] u0 0 rk3_alphas rk3_betas rk3_gammas) k
+     = tcoef (EX [c0; c1; c2; c3; c4] u0 0) k) /\
+  (exists s, run_imex (@ofQ R ROps) NN [c0; c1; 0; 0; 0] u0 0 sil3_a_ex sil3_a_im sil3_b_ex sil3_b_im = Some s /\
+     forall k, (k <= 3)%nat -> tcoef s k = tcoef (EX [c0; c1; 0; 0; 0] u0 0) k).
+Proof.
+  cbv zeta. split.
+  - exact (rk3_order3_G0 C06_nonlinear_hyps_satisfiable u0 0 c0 c1 c2 c3 c4).
+  - exact (sil3_G0_linear_order3 C06_nonlinear_hyps_satisfiable u0 0 c0 c1 0 0 0).
+Qed.
 
 Local Close Scope R_scope.
 
@@ -320,6 +476,16 @@ Print Assumptions C06_order_decider_sound.
 Print Assumptions C06_rk4_near_carpenter_kennedy.
 Print Assumptions C06_linear_taylor_series.
 Print Assumptions C06_leapfrog_second_order_series.
+Print Assumptions C06_series_exact_flow_is_taylor.
+Print Assumptions C06_series_ginv_is_inverse.
+Print Assumptions C06_nonlinear_order_euler.
+Print Assumptions C06_nonlinear_order_cn_rk2.
+Print Assumptions C06_nonlinear_order_cn_rk3.
+Print Assumptions C06_nonlinear_order_cn_rk4.
+Print Assumptions C06_nonlinear_order_sil3.
+Print Assumptions C06_nonlinear_order_leapfrog.
+Print Assumptions C06_nonlinear_hyps_satisfiable.
+Print Assumptions C06_nonlinear_order_reals.
 Print Assumptions C06_imex_is_ark.
 Print Assumptions C06_lowstorage_is_ark.
 Print Assumptions C06_direct_schemes_are_ark.
